@@ -97,6 +97,22 @@ pub fn diff_supply(bytes: &[u8], from: Option<Fmt>, to: Fmt, sched: &Sched, prop
     {
         return Ok((Some("json_duplicate_key_to_toml"), s, r));
     }
+    // K6, detection flavour (see C09): with no format named, a stream holding a
+    // character the YAML input reader rejects can be taken for YAML under one
+    // supply mode and for another format (or none) under the other, because
+    // libyaml validates its raw buffer ahead of the first document. Licensed only
+    // when the hook confirms that exactly one mode detects YAML, that mode is the
+    // one that failed, with a reader-level error, and the input-side predicate holds.
+    if from.is_none() && is_known_class(property, "yaml_reader_level_defect_read_boundaries") && crate::checks::c09::yaml_reader_level_defect(bytes) {
+        let ds = detect(bytes, &Mode::Slice);
+        let dr = detect(bytes, &Mode::Reader(sched.clone()));
+        let (ys, yr) = (ds == Ok(Some(Fmt::Yaml)), dr == Ok(Some(Fmt::Yaml)));
+        let failing_side_is_yaml = (ys && !yr && matches!(&s.verdict, Verdict::Err(e) if crate::checks::c09::reader_level_error(e)))
+            || (yr && !ys && matches!(&r.verdict, Verdict::Err(e) if crate::checks::c09::reader_level_error(e)));
+        if failing_side_is_yaml && prefix_comparable(&s.out, &r.out) || (failing_side_is_yaml && (s.verdict.is_ok() != r.verdict.is_ok())) {
+            return Ok((Some("yaml_reader_level_defect_read_boundaries"), s, r));
+        }
+    }
     Err(problem)
 }
 
@@ -148,6 +164,34 @@ fn large_inputs(shard: u32, n: usize) -> Vec<(Fmt, Vec<u8>)> {
         out.push((Fmt::Msgpack, mp));
         let toml = format!("a = \"{}\"\n[t]\nb = [{}]\n", pad.repeat(1 + k % 200), (0..(k % 3000)).map(|x| x.to_string()).collect::<Vec<_>>().join(", "));
         out.push((Fmt::Toml, toml.into_bytes()));
+        // dense multi-byte text (characters straddle every internal buffer boundary)
+        let chars = ['\u{e9}', '\u{20ac}', '\u{1f600}', '\u{30a2}'];
+        let mut y = String::new();
+        let mut j = String::new();
+        for d in 0..(2 + k % 3) {
+            let mut line = String::new();
+            for c in 0..(9000 + 777 * k + 1301 * d) {
+                if (c + k) % 5 == 0 {
+                    line.push('x');
+                }
+                line.push(chars[(c + d) % 4]);
+            }
+            y.push_str(&format!("---\n- \"{}\"\n", line));
+            j.push_str(&format!("[\"{}\"]\n", line));
+        }
+        out.push((Fmt::Yaml, y.into_bytes()));
+        out.push((Fmt::Json, j.into_bytes()));
+        // TOML just below and above the 2 MiB detection cut-off for readers; the
+        // table header makes the YAML trial give up at once
+        for (si, size) in [2_000_100usize, 2_097_151 - 64, 2_097_151, 2_097_152, 2_097_153 + 4096].into_iter().enumerate() {
+            if (si + k + shard as usize) % 5 != 0 {
+                continue;
+            }
+            let head = "[table]\nkey = \"";
+            let tail = "\"\n";
+            let body = "v".repeat(size - head.len() - tail.len());
+            out.push((Fmt::Toml, format!("{}{}{}", head, body, tail).into_bytes()));
+        }
     }
     out
 }
@@ -180,7 +224,7 @@ impl Check for C02 {
         ]
     }
     fn required_classes(&self, _tier: Tier) -> Vec<&'static str> {
-        vec!["family:valid_stream", "family:mutated_stream", "family:token_seq", "family:random_bytes", "from:detect", "from:yaml", "sched:bytewise", "sched:cuts", "verdict:ok", "verdict:err", "failed_after_partial_output"]
+        vec!["family:valid_stream", "family:mutated_stream", "family:token_seq", "family:random_bytes", "from:detect", "from:yaml", "sched:bytewise", "sched:cuts", "verdict:ok", "verdict:err", "failed_after_partial_output", "toml_near_2MiB_detection_cutoff"]
     }
     fn run_unit(&self, unit: &Unit, shard: u32, seed: u64, tier: Tier, rec: &mut Recorder) {
         match unit.name {
@@ -218,7 +262,12 @@ impl Check for C02 {
             "large" => {
                 for (fmt, bytes) in large_inputs(shard, tier.pick(1, 3)) {
                     for (i, sched) in [Sched::Full, Sched::Fixed(8191), Sched::Sizes(vec![1, 8192, 3, 16384, 100])].iter().enumerate() {
-                        let from = if i == 1 { None } else { Some(fmt) };
+                        // (at 2 MiB and above TOML detection from a reader is switched off by design)
+                        let detect_ok = !(fmt == Fmt::Toml && bytes.len() >= 2 * 1024 * 1024);
+                        let from = if i == 1 && detect_ok { None } else { Some(fmt) };
+                        if fmt == Fmt::Toml && bytes.len() > 1_900_000 {
+                            rec.class("toml_near_2MiB_detection_cutoff");
+                        }
                         if rec.tracing() {
                             rec.trace_case(|| case_json("large", &bytes, from, sched, None));
                         }
@@ -244,6 +293,10 @@ impl Check for C02 {
         check_bytes("replay", &bytes, "replay", from, &sched, &mut rec)
     }
     fn confirm_known(&self, k: &Known) -> bool {
+        if k.class == "yaml_reader_level_defect_read_boundaries" {
+            let bytes = k.example.get("detect_example_hex").and_then(|s| s.as_str()).and_then(unhex).unwrap_or_default();
+            return matches!(diff_supply(&bytes, None, Fmt::Json, &Sched::Fixed(1), "C02"), Ok((Some(c), _, _)) if c == k.class);
+        }
         let text = k.example.get("input").and_then(|s| s.as_str()).unwrap_or("");
         let to = k.example.get("to").and_then(|s| s.as_str()).and_then(Fmt::from_name).unwrap_or(Fmt::Json);
         match diff_supply(text.as_bytes(), Some(Fmt::Json), to, &Sched::Full, "C02") {
